@@ -1356,10 +1356,16 @@ class DepKind(AbsInt):
     def join(self, a, b):
         if isinstance(a, frozenset) and isinstance(b, frozenset):
             return a | b
-        return super().join(a, b)
+        if isinstance(a, Tup) and isinstance(b, Tup) and len(a.elems) == len(b.elems):
+            return Tup([self.join(x, y) for x, y in zip(a.elems, b.elems)], a.kind)
+        if a is BOT:
+            return b
+        if b is BOT:
+            return a
+        return self._u([a, b])
 
     def join_distinct(self, a, b):
-        return TOP
+        return self._u([a, b])
 
     def _u(self, vals):
         out = frozenset()
